@@ -233,6 +233,9 @@ func Quiescent(a, b string, markers ...string) bool {
 	pick := func(s string) []string {
 		var out []string
 		for _, g := range strings.Split(s, "\n\n") {
+			if strings.Contains(g, "mon.Stacks(") {
+				continue // the goroutine taking this very dump is running by construction
+			}
 			for _, m := range markers {
 				if strings.Contains(g, m) {
 					out = append(out, g)
